@@ -742,3 +742,19 @@ PROPERTIES = {
                    rule="run/numeric: every numeric and conversion built-in applied, through a script, to doubles |x| < 2^52 supplied through the storer (random bit patterns, integers, half-way cases, neighbours of integers, signed zeros, subnormals; n in 0..8) and captured by a host function; the contracts of the property are evaluated on the implementation's results in exact rational arithmetic; f64/all: the softfloat model against the compiler's arithmetic, bit for bit",
                    leanchecker=["Ysgo.Props.C19", "Ysgo.Props.C19Roundtrip", "Ysgo.Props.C19Facts"], trusted=["python fractions for the contract predicates"]),
 }
+
+# regenerated facts per property (what the translators extract from the current source on every run, and the theorem that
+# decides it) — listed in the evidence next to the theorems
+_FACTS = {
+    "C03": ["Generated.StateFacts.storerOps (tools/statefacts): what the setters and Clear of InMemoryStorer do to the three maps == Props/C03Facts (setters_keep_one_type, clear_resets_every_map)"],
+    "C06": ["Generated.NumFacts.guardSrc (tools/numfacts): refusal conditions of checkedDice/checkedRandomRange == the model's guards under int64 wrap-around (Props/C09Facts)"],
+    "C07": ["Generated.StateFacts (tools/statefacts): every DialogueRunner field written after construction is written by RestoreAt; method-mutated fields are the model's containers (Props/C07Facts)"],
+    "C09": ["Generated.NumFacts.guardSrc / rngSrc (tools/numfacts): guards, radix, toRadix36, seed accumulation step, IntBetween == the model (Props/C09Facts)"],
+    "C10": ["Generated.ChanFacts (tools/chanfacts): per-call make with capacity >= 1, one send per path, select/default polls, nil assignments == Cfg.Good (Props/C10Chan.code_meets_hypotheses)",
+            "Generated.NumFacts.durationSrc (tools/numfacts): secondsToDuration == Command.waitNanos for every double (Props/C10Facts)"],
+    "C13": ["Generated.NumFacts.ordinalSwitch (tools/numfacts): the switch of processOrdinal == Markup.ordinalCase for n >= 0 (Props/C13Facts)"],
+    "C14": ["Generated.StateFacts.lineParserFields (tools/statefacts): every LineParser field is assigned on entry of ParseMarkup (Props/C07Facts.lineParser_fields_reset_on_entry)"],
+    "C19": ["Generated.NumFacts.numBuiltinSrc (tools/numfacts): bodies of round … integer == Ysgo.Num.* for every argument (Props/C19Facts.numBuiltins_are_model)"],
+}
+for _p, _f in _FACTS.items():
+    PROPERTIES[_p]["generated_facts"] = list(PROPERTIES[_p].get("generated_facts", [])) + _f
